@@ -141,6 +141,7 @@ class BaseHandler:
             and (self.selector.find(".\\") == -1)
             and (self.selector.find("\\\\") == -1)
             and (self.selector.find("\0") == -1)
+            and not self.selector.endswith("/.")
         )
 
     def canhandlerequest(self) -> bool:
